@@ -150,18 +150,41 @@ fn one_upload(r: &mut Report, rng: &mut Rng, shard: usize, schema: &refcodec::la
             }
         }
     }
+    // now and then the terminal's requests carry more than the id and the offset (a size element, a payload element of
+    // their own): what is answered is still the file's bytes at that offset and nothing else
+    let decorated = rng.chance(1, 6);
     let replies: Vec<Reply> = requests
         .iter()
-        .map(|(id, off)| Reply {
-            variant: "RequestForData".into(),
-            bytes: WfCodec::request(Some(*id), Some(*off), true, true),
-            item_debug: item_debug(
-                "RequestForData",
-                "feig::packets::RequestForData",
-                &WfCodec::request(Some(*id), Some(*off), true, true),
-                &format!("RequestForData {{ tlv: Some(WriteData {{ file: Some(File {{ file_id: Some({id}), file_offset: Some({off}), file_size: None, payload: None }}) }}) }}"),
-            ),
-            answer: WfCodec::data_block(*id, *off, slice_of(&files[id], *off, block)),
+        .map(|(id, off)| {
+            let bytes = if decorated {
+                let mut extra: Vec<(u16, Vec<u8>)> = vec![];
+                if rng.chance(1, 2) {
+                    extra.push((0x1f00, (rng.below(1 << 20) as u32).to_be_bytes().to_vec()));
+                }
+                if extra.is_empty() || rng.chance(2, 3) {
+                    let n = 1 + rng.below(60) as usize;
+                    extra.push((0x1c, rng.bytes(n)));
+                }
+                r.count("data_requests_carrying_further_elements", 1);
+                if rng.chance(1, 3) {
+                    WfCodec::request_with(*id, *off, &extra, &[])
+                } else {
+                    WfCodec::request_with(*id, *off, &[], &extra)
+                }
+            } else {
+                WfCodec::request(Some(*id), Some(*off), true, true)
+            };
+            Reply {
+                variant: "RequestForData".into(),
+                item_debug: item_debug(
+                    "RequestForData",
+                    "feig::packets::RequestForData",
+                    &bytes,
+                    &format!("RequestForData {{ tlv: Some(WriteData {{ file: Some(File {{ file_id: Some({id}), file_offset: Some({off}), file_size: None, payload: None }}) }}) }}"),
+                ),
+                bytes,
+                answer: WfCodec::data_block(*id, *off, slice_of(&files[id], *off, block)),
+            }
         })
         .collect();
     let sd = refcodec::tables::STREAMS.iter().find(|s| s.name == "feig::WriteFile").unwrap();
@@ -270,9 +293,54 @@ fn volume_upload(r: &mut Report, rng: &mut Rng, shard: usize, schema: &refcodec:
     ex.check_c05(r, schema, "C11");
 }
 
+/// One file beyond 41 MiB (bytes_sent x 100 no longer fits 32 bits): blocks around that mark, in the middle and at the end.
+fn big_file_upload(r: &mut Report, rng: &mut Rng, shard: usize, schema: &refcodec::layout::Schema, pools: &Pools) {
+    let size = 43_100_000usize + rng.below(50_000) as usize;
+    let mut content = rng.bytes(1 << 16);
+    while content.len() < size {
+        let n = content.len().min(size - content.len());
+        content.extend_from_within(..n);
+    }
+    for (i, b) in content.iter_mut().enumerate().step_by(4099) {
+        *b = (i / 4099) as u8; // breaks the period
+    }
+    let mut files: BTreeMap<u8, Vec<u8>> = BTreeMap::new();
+    files.insert(0x10, content);
+    let dir = PayloadDir::create(&format!("c11-big-{shard}"), &files, &[]);
+    let sizes: BTreeMap<u8, u32> = files.iter().map(|(k, v)| (*k, v.len() as u32)).collect();
+    let block = 32768u32;
+    let params = WriteFileParams { dir: dir.dir.clone(), password: 123456, block };
+    let announce = WfCodec::announce(params.password as u128, &sizes);
+    let mark = (u32::MAX / 100) as usize; // 42_949_672
+    let mut offsets: Vec<u32> = vec![0, 1 << 24, (1 << 25) + 7, 40_000_000];
+    for d in [-40_000i64, -32_769, -32_768, -32_767, -1, 0, 1, 32_768, 100_000] {
+        offsets.push((mark as i64 + d) as u32);
+    }
+    for d in [40_000usize, 32_768, 1, 0] {
+        offsets.push((size - d) as u32);
+    }
+    offsets.push(size as u32 + 1);
+    let replies: Vec<Reply> = offsets
+        .iter()
+        .map(|off| {
+            let b = WfCodec::request(Some(0x10), Some(*off), true, true);
+            Reply { variant: "RequestForData".into(), item_debug: item_debug("RequestForData", "feig::packets::RequestForData", &b, "?"), bytes: b, answer: WfCodec::data_block(0x10, *off, slice_of(&files[&0x10], *off, block)) }
+        })
+        .collect();
+    let sd = refcodec::tables::STREAMS.iter().find(|s| s.name == "feig::WriteFile").unwrap();
+    let mut all = replies;
+    all.push(make_final(sd, pools, rng, "CompletionData"));
+    let ex = Exchange { stream: "feig::WriteFile", cmd_bytes: announce.clone(), cmd_check: CmdCheck::WriteFile { password: 123456, files: sizes.clone(), len: announce.len() }, ack: ACK.to_vec(), final_at: Some(all.len() - 1), replies: all, junk: vec![], chunking: Chunking::Whole, pend_between: false, write_chunk: None, fault: None, wf: Some(&params) };
+    r.case(fnv(b"big-file") ^ size as u64, true);
+    r.count("uploads_of_a_file_beyond_41_MiB", 1);
+    r.count("data_requests", offsets.len() as u64);
+    r.note("largest_file_bytes", &format!("{size:010}"));
+    ex.check_c05(r, schema, "C11");
+}
+
 pub fn run(ctx: &Ctx) -> i32 {
     let mut report = ctx.report("C11", "exploration");
-    report.rule = "uploads: a payload directory created by the harness (random subset of the 21 recognised paths, sizes {0, 1, block-1, block, block+1, 2*block, 65535, 65536, 200 KiB, random}, random content, plus unrelated files and sub-directories, among them files whose last path components equal a recognised path but that sit elsewhere in the tree) x block size {1, 2, 127, 128, 253..257, 1024, 32767, 32768, random} x a request script {sequential full download, any order/repeated/overlapping, round robin over all files (up to all 21) for three rounds, offsets at/after end of file and u32::MAX, short, backwards} ending in completion, abort or an invalid request; plus one long upload (one file fetched 1400 / 14000 times in 32 KiB blocks: 46 / 460 MB in one exchange) {unknown id, recognised-but-absent id, missing id, missing offset, missing file container, missing TLV container}. Oracle over the scripted terminal's event log: the announcement decodes (reference codec) to exactly the set {(id, true size)}; every data request is answered by exactly the reference encoding of {id, offset, file[offset..min(offset+block,size)]} (empty = absent payload) before the next read; an invalid request yields one error, no data, end. Non-trivial = upload with at least one data request; distinct by hash of (announcement, block, requests, ending).".into();
+    report.rule = "uploads: a payload directory created by the harness (random subset of the 21 recognised paths, sizes {0, 1, block-1, block, block+1, 2*block, 65535, 65536, 200 KiB, random}, random content, plus unrelated files and sub-directories, among them files whose last path components equal a recognised path but that sit elsewhere in the tree) x block size {1, 2, 127, 128, 253..257, 1024, 32767, 32768, random} x a request script {sequential full download, any order/repeated/overlapping, round robin over all files (up to all 21) for three rounds, offsets at/after end of file and u32::MAX, short, backwards} ending in completion, abort or an invalid request; plus one long upload (one file fetched 1400 / 14000 times in 32 KiB blocks: 46 / 460 MB in one exchange) and one upload of a single 43 MB file with blocks around byte 42 949 672 (where bytes x 100 leaves 32 bits), in the middle and at the end; one upload in six with requests that carry further elements of the file container (a size, a payload of their own) in front of or behind id and offset; invalid requests {unknown id, recognised-but-absent id, missing id, missing offset, missing file container, missing TLV container}. Oracle over the scripted terminal's event log: the announcement decodes (reference codec) to exactly the set {(id, true size)}; every data request is answered by exactly the reference encoding of {id, offset, file[offset..min(offset+block,size)]} (empty = absent payload) before the next read; an invalid request yields one error, no data, end. Non-trivial = upload with at least one data request; distinct by hash of (announcement, block, requests, ending).".into();
     report.exhaustive = Some(false);
     report.assumptions = vec!["files and directories are created under /verif/.build/<work>/scratch and removed afterwards".into(), "files > 4 GiB (u32 truncation) are not exercised".into()];
     let schema = refcodec::zvt_schema();
@@ -286,6 +354,10 @@ pub fn run(ctx: &Ctx) -> i32 {
             // ~46 MB in one exchange (quick), ~460 MB (thorough)
             let mut vrng = Rng::derive(seed, 0xC11_F00);
             volume_upload(r, &mut vrng, shard, &schema, &pools, if quick { 1400 } else { 14_000 });
+        }
+        if shard == 1 % threads {
+            let mut vrng = Rng::derive(seed, 0xC11_B16);
+            big_file_upload(r, &mut vrng, shard, &schema, &pools);
         }
         let mut rng = Rng::derive(seed, 0xC11 + shard as u64);
         for _ in 0..n / threads {
